@@ -366,3 +366,109 @@ def check_tr2eul(run, word, rule='R19'):
     except Shape as ex:
         run.error('R19: tr2eul: unrecognised %s' % ex)
     return n
+
+
+# =========================================================================== r2q o q2r
+def q2r_table():
+    s, x, y, z = (Poly.atom(a) for a in 'sxyz')
+    two = Poly.const(2)
+    return [[ONE - two * (y * y + z * z), two * (x * y - s * z), two * (x * z + s * y)],
+            [two * (x * y + s * z), ONE - two * (x * x + z * z), two * (y * z - s * x)],
+            [two * (x * z - s * y), two * (y * z + s * x), ONE - two * (x * x + y * y)]]
+
+
+def check_r2q(run, rule='R19'):
+    """Compose r2q with the (checked) q2r monomial table over the atoms s, x, y, z: on every path the vector kv that is
+    normalised into the vector part equals (4 s + sigma 4 c) * (x, y, z), c the component selected by the branch, sigma = +1
+    exactly in the arm taken when k_c = 4 s c >= 0; and trace(R) + 1 = 4 - 4 |v|^2 (= 4 s^2 for a unit quaternion)."""
+    f = run.prog.func('base/quaternions:r2q')
+    fi = FuncInfo.of(f)
+    M = q2r_table()
+    rd = Reader(M, '__none__')
+    atoms = {'x': Poly.atom('x'), 'y': Poly.atom('y'), 'z': Poly.atom('z')}
+    s = Poly.atom('s')
+    four = Poly.const(4)
+    paths = []          # (env, sigma, node)
+
+    def ev(e, env):
+        rd.env = {k: v for k, v in env.items() if isinstance(v, Poly)}
+        return rd.ev(e)
+
+    def run_block(stmts, envs):
+        for st in stmts:
+            if isinstance(st, ast.Assign) and len(st.targets) == 1 and isinstance(st.targets[0], ast.Name):
+                nm = st.targets[0].id
+                v = canon(fi, st.value, inline=False)
+                new = []
+                for env in envs:
+                    env = dict(env)
+                    if isinstance(v, ast.Compare) and len(v.ops) == 1 and isinstance(v.ops[0], ast.GtE) and \
+                            isinstance(v.comparators[0], ast.Constant) and v.comparators[0].value == 0:
+                        env[nm] = ('ge0', ev(v.left, env))
+                    else:
+                        try:
+                            env[nm] = ev(v, env)
+                        except Shape:
+                            env[nm] = ('opaque', v)
+                    new.append(env)
+                envs = new
+            elif isinstance(st, ast.If):
+                t = st.test
+                if isinstance(t, ast.Name) and all(isinstance(env.get(t.id), tuple) and env[t.id][0] == 'ge0' for env in envs):
+                    a = run_block(st.body, [dict(env, __sigma=1, __test=env[t.id][1]) for env in envs])
+                    b = run_block(st.orelse, [dict(env, __sigma=-1, __test=env[t.id][1]) for env in envs])
+                    envs = a + b
+                elif any(isinstance(x, ast.Return) for x in ast.walk(st)):
+                    continue        # validity test / final return
+                else:
+                    arms, els = if_chain(st)
+                    out = []
+                    for (tt, bb) in arms:
+                        out += run_block(bb, [dict(env) for env in envs])
+                    if els:
+                        out += run_block(els, [dict(env) for env in envs])
+                    envs = out
+        return envs
+
+    envs = run_block(body_nodoc(f.node), [{}])
+    n = 0
+    for env in envs:
+        if '__sigma' not in env or not all(isinstance(env.get(k), Poly) for k in ('kx', 'ky', 'kz')):
+            continue
+        n += 1
+        test = env['__test']
+        sigma = env['__sigma']
+        comp = None
+        for nm_, a in atoms.items():
+            if test == four * s * a:
+                comp = nm_
+        arm = '%s-branch, %s arm' % (comp or '?', 'add' if sigma > 0 else 'subtract')
+        if comp is None:
+            run.violation(rule, f.key, 'r2q o q2r: sign test', 'the arm is selected by the sign of %s, which is not 4*s*(x|y|z) for the composed matrix' % test, f=f)
+            continue
+        lam = four * s + (four * atoms[comp]).scale(sigma)
+        bad = [(k, env[k], lam * atoms[c]) for k, c in (('kx', 'x'), ('ky', 'y'), ('kz', 'z')) if env[k] != lam * atoms[c]]
+        if bad:
+            k, got, want = bad[0]
+            run.violation(rule, f.key, 'r2q o q2r: ' + arm, 'for R = q2r(s, x, y, z) the component %s composes to %s, not to %s: the vector part '
+                          'returned is not parallel to (x, y, z) with the sign of s (r2q(q2r(q)) != +-q)' % (k, got, want), f=f)
+        else:
+            run.holds(rule, f.key, 'r2q o q2r: ' + arm, 'kv = (%s) * (x, y, z): parallel to the vector part, non-negative factor in this arm' % lam, f=f)
+    if n != 6:
+        run.error('R19: r2q: %d of the expected 6 (branch, arm) paths evaluated' % n)
+    # scalar part
+    ok = False
+    for st in body_nodoc(f.node):
+        if isinstance(st, ast.Assign) and isinstance(st.targets[0], ast.Name) and st.targets[0].id == 'qs':
+            v = canon(fi, st.value, inline=False)
+            b = matches('sqrt(max(0, trace(R) + 1)) / 2.0', v) or matches('sqrt(max(0, trace(R) + 1)) / 2', v)
+            if b is not None:
+                tr = M[0][0] + M[1][1] + M[2][2] + ONE
+                x, y, z = atoms['x'], atoms['y'], atoms['z']
+                ok = tr == four - four * (x * x + y * y + z * z)
+    (run.holds if ok else run.violation)(rule, f.key, 'r2q o q2r: scalar part', 'qs = sqrt(trace + 1)/2 and trace(q2r(q)) + 1 = 4 - 4|v|^2 = 4 s^2 for a unit quaternion'
+                                         if ok else 'scalar part is not sqrt(max(0, trace(R) + 1)) / 2', f=f)
+    rets = [canon(fi, r.value, inline=False) for r in ast.walk(f.node) if isinstance(r, ast.Return) and r.value is not None]
+    okr = any(matches('r_[qs, sqrt(1.0 - qs ** 2) / nm * kv]', e) is not None for e in rets)
+    (run.holds if okr else run.error if False else run.violation)(rule, f.key, 'r2q: assembly', '[qs, sqrt(1 - qs^2) * kv / |kv|]' if okr else
+                                                                  'the result is not assembled as [qs, sqrt(1 - qs^2) * kv / nm]', f=f)
